@@ -64,6 +64,8 @@ func checkC11(a *checkArgs, r *Result) error {
 		}
 		seeds = append(seeds, baseStream{"xz", "spec-gen/" + desc, s, c, int(s[7])})
 	}
+	far := farMatchStreams(rng, 12)
+	seeds = append(seeds, far...)
 	type job struct {
 		c  rdCase
 		in []byte
@@ -112,6 +114,16 @@ func checkC11(a *checkArgs, r *Result) error {
 				}
 			}
 		}()
+	}
+	// corpus first: matches farther back than a dictionary that was made smaller after the fact
+	for _, b := range far {
+		if t, dc, ok := shrinkDict(b); ok {
+			jobs <- job{rdCase{Op: "read-arbitrary", Kind: b.Kind, Name: b.Name + " dict-shrunk-to-4096", Stream: hxe(t), DictCap: dc}, t}
+			for k := 0; k < 20; k++ {
+				u := mutateBytes(rng, t)
+				jobs <- job{rdCase{Op: "read-arbitrary", Kind: b.Kind, Name: b.Name + " dict-shrunk-to-4096 mutated", Stream: hxe(u), DictCap: dc}, u}
+			}
+		}
 	}
 	for i := 0; i < n; i++ {
 		b := seeds[rng.Intn(len(seeds))]
